@@ -7,8 +7,8 @@ use crate::{Case, Rng};
 pub const VTYPES: [&str; 14] = [
     "u8", "u16", "u32", "u64", "u128", "usize", "i8", "i16", "i32", "i64", "i128", "isize", "empty", "w3",
 ];
-pub const PROFILES: [&str; 10] =
-    ["std", "lm", "values", "utf8", "serial", "invalid", "nfb", "perm", "mixed", "vacant"];
+pub const PROFILES: [&str; 11] =
+    ["std", "lm", "values", "utf8", "serial", "invalid", "nfb", "perm", "mixed", "vacant", "exh"];
 const NFBS: [u32; 6] = [1, 2, 3, 4, 16, 64];
 
 type Sym = u32;
@@ -655,6 +655,63 @@ fn p_vacant(r: &mut Rng, n: usize) -> Vec<Case> {
     vec![mk(Spec { id: format!("k{}", n), variant: 'B', kind, nfb, entry: 'P', vt: "u32" }, false, &set, None, &hs)]
 }
 
+/// Exhaustive small scope: item `n` enumerates (variant, kind, ordered list of 1-3 distinct
+/// patterns of length 1-3 over a two-symbol alphabet); every case gets ALL haystacks of length
+/// <= 6 over that alphabet. 2 * 3 * 2380 = 14280 items in total (`EXH_ITEMS`). Validation of the
+/// model against the code on a complete small space -- never a substitute for the theorems.
+pub const EXH_ITEMS: usize = 2 * 3 * 2380;
+
+fn all_words(a: &[Sym], max: usize) -> Vec<Word> {
+    let mut out: Vec<Word> = vec![vec![]];
+    let mut level: Vec<Word> = vec![vec![]];
+    for _ in 0..max {
+        let mut next = vec![];
+        for w in &level {
+            for &c in a {
+                let mut x = w.clone();
+                x.push(c);
+                next.push(x);
+            }
+        }
+        out.extend(next.iter().cloned());
+        level = next;
+    }
+    out
+}
+
+fn p_exh(n: usize) -> Vec<Case> {
+    let n = n % EXH_ITEMS;
+    let variant = if n % 2 == 0 { 'B' } else { 'C' };
+    let kind = ((n / 2) % 3) as u8;
+    let mut k = n / 6; // 0..2380
+    let a: Vec<Sym> = if variant == 'B' { vec![0, 1] } else { vec![0x61, 0xE9] };
+    let univ: Vec<Word> = all_words(&a, 3).into_iter().filter(|w| !w.is_empty()).collect(); // 14
+    let m = univ.len();
+    let set: Vec<Word> = if k < m {
+        vec![univ[k].clone()]
+    } else if k < m + m * (m - 1) {
+        k -= m;
+        let i = k / (m - 1);
+        let mut j = k % (m - 1);
+        if j >= i { j += 1; }
+        vec![univ[i].clone(), univ[j].clone()]
+    } else {
+        k -= m + m * (m - 1);
+        let i = k / ((m - 1) * (m - 2));
+        let r = k % ((m - 1) * (m - 2));
+        let mut j = r / (m - 2);
+        let mut l = r % (m - 2);
+        if j >= i { j += 1; }
+        let (lo, hi) = if i < j { (i, j) } else { (j, i) };
+        if l >= lo { l += 1; }
+        if l >= hi { l += 1; }
+        vec![univ[i].clone(), univ[j].clone(), univ[l].clone()]
+    };
+    let hs = all_words(&a, 6);
+    let utf8 = variant == 'C';
+    vec![mk(Spec { id: format!("e{}", n), variant, kind, nfb: 16, entry: 'P', vt: "u32" }, utf8, &set, None, &hs)]
+}
+
 /// One generation step: a case or a group of related cases.  `n` is the item counter (ids).
 pub fn item(profile: &str, r: &mut Rng, n: usize) -> Vec<Case> {
     match profile {
@@ -667,6 +724,7 @@ pub fn item(profile: &str, r: &mut Rng, n: usize) -> Vec<Case> {
         "nfb" => p_nfb(r, n),
         "perm" => p_perm(r, n),
         "vacant" => p_vacant(r, n),
+        "exh" => p_exh(n),
         _ => {
             let x = r.below(100);
             let sub = match x {
